@@ -39,6 +39,7 @@ static char tri_msg[256];
 
 static void take(struct json_tokener *tok, struct json_object *o, size_t len, struct res *r)
 {
+	vf_progress++;   /* a library call has returned: the watchdog judges single calls, not whole driver commands (a 650 KB number fed in 70 000 small pieces is slow, not stuck) */
 	r->err = (int)json_tokener_get_error(tok);
 	r->end = json_tokener_get_parse_end(tok);
 	r->nonnull = o != NULL;
